@@ -105,6 +105,33 @@ func alterField(wire []byte, field string, index int, kind string, rng *rand.Ran
 				return donorB
 			}
 			return b
+		case "negate-p":
+			// the other square root: p - y for a coordinate of the protocol's curve (the mirrored point)
+			fp := tss.S256().Params().P
+			if strings.Contains(string(a.TypeUrl), "eddsa") {
+				fp = tss.Edwards().Params().P
+			}
+			x := new(big.Int).SetBytes(b)
+			if x.Sign() == 0 || x.Cmp(fp) >= 0 {
+				return b
+			}
+			return new(big.Int).Sub(fp, x).Bytes()
+		case "negate":
+			// the negation in the scalar group of the protocol's curve (q - v): a check that compares x coordinates only, or squares,
+			// accepts it; left-padded to the original length
+			ord := tss.S256().Params().N
+			if strings.Contains(string(a.TypeUrl), "eddsa") {
+				ord = tss.Edwards().Params().N
+			}
+			x := new(big.Int).SetBytes(b)
+			if x.Sign() == 0 || x.Cmp(ord) >= 0 {
+				return b
+			}
+			out := new(big.Int).Sub(ord, x).Bytes()
+			if len(out) < len(b) {
+				out = append(make([]byte, len(b)-len(out)), out...)
+			}
+			return out
 		case "empty":
 			return []byte{}
 		case "zero-byte":
@@ -208,6 +235,57 @@ func recommitment(pair commitPair, variant string) ([]byte, [][]byte) {
 		open[i] = d.Bytes()
 	}
 	return cmt.C.Bytes(), open
+}
+
+// swapWireFields exchanges the values of pairs of fields (same kind) of a wire message.
+func swapWireFields(wire []byte, pairs [][2]string) ([]byte, bool) {
+	var a anypb.Any
+	if err := proto.Unmarshal(wire, &a); err != nil {
+		return wire, false
+	}
+	m, err := a.UnmarshalNew()
+	if err != nil {
+		return wire, false
+	}
+	mr := m.ProtoReflect()
+	for _, pr := range pairs {
+		f1 := mr.Descriptor().Fields().ByName(protoreflect.Name(pr[0]))
+		f2 := mr.Descriptor().Fields().ByName(protoreflect.Name(pr[1]))
+		if f1 == nil || f2 == nil || f1.IsList() != f2.IsList() {
+			return wire, false
+		}
+		if f1.IsList() {
+			var l1, l2 [][]byte
+			for i := 0; i < mr.Get(f1).List().Len(); i++ {
+				l1 = append(l1, append([]byte{}, mr.Get(f1).List().Get(i).Bytes()...))
+			}
+			for i := 0; i < mr.Get(f2).List().Len(); i++ {
+				l2 = append(l2, append([]byte{}, mr.Get(f2).List().Get(i).Bytes()...))
+			}
+			mr.Clear(f1)
+			mr.Clear(f2)
+			for _, b := range l2 {
+				mr.Mutable(f1).List().Append(protoreflect.ValueOfBytes(b))
+			}
+			for _, b := range l1 {
+				mr.Mutable(f2).List().Append(protoreflect.ValueOfBytes(b))
+			}
+		} else {
+			v1 := append([]byte{}, mr.Get(f1).Bytes()...)
+			v2 := append([]byte{}, mr.Get(f2).Bytes()...)
+			mr.Set(f1, protoreflect.ValueOfBytes(v2))
+			mr.Set(f2, protoreflect.ValueOfBytes(v1))
+		}
+	}
+	na, err := anypb.New(m)
+	if err != nil {
+		return wire, false
+	}
+	out, err := proto.Marshal(na)
+	if err != nil {
+		return wire, false
+	}
+	return out, true
 }
 
 // setWireField replaces one bytes / repeated-bytes field of a wire message.
@@ -500,7 +578,15 @@ func runFault(fr faultRunner, f fault, seed int64) faultResult {
 		faultShape = f.Index
 	}
 	shape := faultShape
+	if strings.HasPrefix(f.Kind, "config-threshold") {
+		// the deviator runs the honest code with a threshold one above / below the agreed one (it deals a polynomial of another degree)
+		cfgDeviator, cfgThresholdDelta = f.Deviator, 1
+		if strings.HasSuffix(f.Kind, "-1") {
+			cfgThresholdDelta = -1
+		}
+	}
 	rc := fr.build(seed)
+	cfgDeviator, cfgThresholdDelta = "", 0
 	faultShape = 0
 	net := rc.net
 	net.Rng = rand.New(rand.NewSource(seed))
@@ -563,6 +649,10 @@ func runFault(fr faultRunner, f fault, seed int64) faultResult {
 			}
 			return
 		}
+		if strings.HasPrefix(f.Kind, "config-") {
+			res.Applied = 1
+			return
+		}
 		if strings.HasPrefix(f.Kind, "recommit-") {
 			if c.From.Name != f.Deviator {
 				return
@@ -609,7 +699,23 @@ func runFault(fr faultRunner, f fault, seed int64) faultResult {
 					donor, donorKey = w, k
 				}
 			}
-			if f.Kind == "mirror" {
+			if f.Kind == "mirror-swap" {
+				// the donor with the LOWEST name (so that the deviator's copy is examined after the original), with the two
+				// ring-Pedersen generators and their two session-less DLN proofs exchanged: still the donor's own valid proofs
+				var low []byte
+				lowKey := ""
+				for k, w := range seen {
+					if strings.HasPrefix(k, c.Type+"/") && k != key && (lowKey == "" || k < lowKey) {
+						low, lowKey = w, k
+					}
+				}
+				if low != nil {
+					if nw, ok := swapWireFields(low, [][2]string{{"h1", "h2"}, {"dlnproof_1", "dlnproof_2"}}); ok {
+						c.Wire = nw
+						res.Applied++
+					}
+				}
+			} else if f.Kind == "mirror" {
 				if donor != nil {
 					c.Wire = donor
 					res.Applied++
@@ -783,6 +889,9 @@ func enumerateFaults(fr faultRunner, kinds []string, deviators []string, sampleI
 				}
 			}
 			out = append(out, fault{fr.proto, d, t, "*", 0, "mirror"})
+			if t == "KGRound1Message" && fr.proto == "ecdsa_keygen" || t == "DGRound2Message1" {
+				out = append(out, fault{fr.proto, d, t, "*", 0, "mirror-swap"})
+			}
 			for _, k := range []string{"foreign-type", "sender-oor", "sender-oor-all-types", "garbage"} {
 				out = append(out, fault{fr.proto, d, t, "inject", 0, k})
 			}
@@ -799,7 +908,7 @@ func crypto2ScalarBaseMult(ec elliptic.Curve, k *big.Int) [2]*big.Int {
 // ---- child-process protocol: "vcheck faults <proto> <tier> <seed> <prop> <outfile> <startIndex>" ----
 func faultList(fr faultRunner, tier, prop string) []fault {
 	thorough := tier == "thorough"
-	kinds := []string{"+1", "random", "other", "empty"}
+	kinds := []string{"+1", "random", "other", "empty", "negate"}
 	if prop == "C06" {
 		kinds = []string{"zero-byte", "one", "huge", "q", "2q", "L", "2^256", "empty"}
 	}
@@ -822,7 +931,7 @@ func faultList(fr faultRunner, tier, prop string) []fault {
 		if prop == "C05" && f.Field == "inject" {
 			continue
 		}
-		if prop == "C06" && f.Kind == "mirror" {
+		if prop == "C06" && strings.HasPrefix(f.Kind, "mirror") {
 			continue
 		}
 		all = append(all, f)
@@ -855,6 +964,17 @@ func faultList(fr faultRunner, tier, prop string) []fault {
 			}
 		}
 	}
+	if strings.HasSuffix(fr.proto, "keygen") || strings.HasSuffix(fr.proto, "resharing") {
+		for _, d := range devs[fr.proto] {
+			if strings.HasSuffix(fr.proto, "resharing") && !strings.HasPrefix(d, "O") {
+				continue
+			}
+			rec = append(rec, fault{fr.proto, d, "-", "config", 0, "config-threshold+1"})
+			if thorough || fr.cost <= 2 {
+				rec = append(rec, fault{fr.proto, d, "-", "config", 0, "config-threshold-1"})
+			}
+		}
+	}
 	all = append(rec, all...)
 	if thorough || fr.cost <= 2 {
 		return all
@@ -864,12 +984,17 @@ func faultList(fr faultRunner, tier, prop string) []fault {
 	if prop == "C06" {
 		// the expensive protocols only get the injection faults of their first message type in the quick tier
 		var inj []fault
+		var firstInj *fault
 		for _, f := range all {
-			if f.Kind == "index-sweep" || strings.HasPrefix(f.Kind, "recommit-") {
+			if f.Kind == "index-sweep" || strings.HasPrefix(f.Kind, "recommit-") || strings.HasPrefix(f.Kind, "config-") {
 				inj = append(inj, f)
 				continue
 			}
-			if f.Field == "inject" && (len(inj) == 0 || inj[len(inj)-1].Kind == "index-sweep" || strings.HasPrefix(inj[len(inj)-1].Kind, "recommit-") || inj[len(inj)-1].Type == f.Type && inj[len(inj)-1].Deviator == f.Deviator) {
+			if f.Field == "inject" && (firstInj == nil || firstInj.Type == f.Type && firstInj.Deviator == f.Deviator) {
+				if firstInj == nil {
+					ff := f
+					firstInj = &ff
+				}
 				inj = append(inj, f)
 			}
 		}
@@ -879,11 +1004,28 @@ func faultList(fr faultRunner, tier, prop string) []fault {
 	}
 	var forced []fault
 	for _, f := range all {
-		if strings.HasSuffix(f.Kind, "@same") || strings.HasPrefix(f.Kind, "recommit-") {
+		if strings.HasSuffix(f.Kind, "@same") || strings.HasPrefix(f.Kind, "recommit-") || strings.HasPrefix(f.Kind, "config-") {
 			forced = append(forced, f)
 		}
 		// the recorded known finding (duplicate h1/h2 blame) is re-confirmed on every run
 		if prop == "C05" && f.Proto == "ecdsa_keygen" && f.Type == "KGRound1Message" && f.Kind == "mirror" {
+			forced = append(forced, f)
+		}
+		// every recorded known finding is re-confirmed on every run: the single-field variants of the duplicate-h1/h2 blame ...
+		if prop == "C05" && f.Kind == "other" && (f.Field == "h1" || f.Field == "h2") &&
+			(f.Proto == "ecdsa_keygen" && f.Type == "KGRound1Message" || f.Proto == "ecdsa_resharing" && f.Type == "DGRound2Message1" && f.Deviator == "N1") {
+			forced = append(forced, f)
+		}
+		// a replay with the generators and their proofs exchanged must be refused (the deviator is the later one here, so it is the one blamed)
+		if prop == "C05" && f.Kind == "mirror-swap" && f.Deviator == "N1" {
+			forced = append(forced, f)
+		}
+		// ... and the whole-message variant of the late factorisation-proof check
+		if prop == "C05" && f.Proto == "ecdsa_resharing" && f.Type == "DGRound4Message1" && f.Deviator == "N1" && f.Kind == "mirror" {
+			forced = append(forced, f)
+		}
+		// recorded known finding: factorisation proofs are verified after the ACKs (key loss with one deviating new member)
+		if prop == "C05" && f.Proto == "ecdsa_resharing" && f.Type == "DGRound4Message1" && f.Deviator == "N1" && f.Field == "facProof" && f.Index == 0 && f.Kind == "+1" {
 			forced = append(forced, f)
 		}
 		// the same pairwise check exists in ECDSA resharing round 4 (Gen/BlameSites.v pairwise_sites)
@@ -939,6 +1081,16 @@ func faultsChild(args []string) {
 		}
 	}
 	list := faultList(fr, tier, prop)
+	if only := os.Getenv("VCHECK_ONLY_FAULT"); only != "" {
+		// debugging aid: run only the faults whose description contains the given text
+		var sel []fault
+		for _, x := range list {
+			if strings.Contains(x.String(), only) {
+				sel = append(sel, x)
+			}
+		}
+		list = sel
+	}
 	f, _ := os.OpenFile(outfile, os.O_APPEND|os.O_CREATE|os.O_WRONLY, 0o644)
 	defer f.Close()
 	for i := start; i < len(list); i++ {
@@ -949,7 +1101,7 @@ func faultsChild(args []string) {
 		go func(i int) { resCh <- runFault(fr, list[i], faultSeed+int64(i)) }(i)
 		limit := 30 * time.Second
 		if fr.cost >= 100 {
-			limit = 5 * time.Minute
+			limit = 2 * time.Minute
 		}
 		select {
 		case res := <-resCh:
@@ -990,7 +1142,12 @@ func genFaults(r *vc.Run, prop string) {
 		os.Remove(outfile)
 		start := 0
 		total := -1
-		for attempt := 0; attempt < 40; attempt++ {
+		// every crash or hang costs a child restart (a hang costs the watchdog's full period): after 6 of them in one protocol the
+		// verdict is established and the remaining faults of that protocol are skipped
+		for attempt := 0; attempt < 6; attempt++ {
+			if attempt == 5 {
+				r.Note("%s: 5 crashes/hangs observed, remaining faults of this protocol skipped", fr.proto)
+			}
 			cmd := exec.Command(self, "faults", fr.proto, r.Tier, fmt.Sprint(r.Seed), prop, outfile, fmt.Sprint(start))
 			cmd.Env = os.Environ()
 			var stderr strings.Builder
@@ -1080,6 +1237,25 @@ func judgeFault(r *vc.Run, prop string, res faultResult) {
 	replay := f.String()
 	if prop == "C06" {
 		return // survival is the oracle; it was checked by the parent
+	}
+	if f.Kind == "config-threshold+1" && res.Applied > 0 {
+		// a dealing of the wrong degree is covered by the share check: every honest party that examines it must name the dealer
+		named := false
+		for _, cs := range res.Culprits {
+			for _, c := range cs {
+				named = named || c == f.Deviator
+			}
+		}
+		if !named {
+			r.Violate(fmt.Sprintf("wrong-degree-dealing-accepted|%s", f.Proto), fmt.Sprintf("%s dealt a polynomial of degree t+1 (it runs the honest code with threshold t+1) and no honest party objected (%s)", f.Deviator, f.String()), replay)
+		}
+	}
+	refusedThere := false
+	for _, t := range res.ErrText {
+		refusedThere = refusedThere || strings.Contains(t, f.Type)
+	}
+	if strings.HasPrefix(f.Kind, "mirror") && (f.Type == "KGRound1Message" && f.Proto == "ecdsa_keygen" || f.Type == "DGRound2Message1") && res.Applied > 0 && !refusedThere {
+		r.Violate(fmt.Sprintf("replay-accepted|%s|%s|%s", f.Proto, f.Type, f.Kind), fmt.Sprintf("another participant's ring-Pedersen parameters and DLN proofs were replayed by %s and nobody objected (%s)", f.Deviator, f.String()), replay)
 	}
 	if res.BadOutput != "" {
 		r.Violate(fmt.Sprintf("bad-output|%s|%s|%s", f.Proto, f.Type, f.Field), fmt.Sprintf("an honest party produced a bad output under %s: %s", f.String(), res.BadOutput), replay)
